@@ -22,6 +22,8 @@ var c14Separators = []struct {
 
 var c14Comments = []string{
 	"; c", ";", ";; note", "; (unbalanced", "; \"quote", "; ) ]", ";;;; optimize:false", ";;;; reordering:false, constant_folding:false", "; ;;;; x", ";\t", "; trailing  ", "; λ 注释", ";;;; bogus",
+	// a carriage return does not end a comment: only the line feed does
+	"; a\rb", "; old mac\r(+ 1 2) 5", ";\r\r 7 )", "; crlf\r", "; x\r;;;; optimize:false",
 }
 
 func init() {
